@@ -102,7 +102,7 @@ PutBag(kind, rest, el) ==      \* put element el back into a bag node, flattenin
     [t |-> kind, bag |-> BagUnion(rest, IF el.t = kind /\ kind \in ACKindsM THEN el.bag
                                         ELSE BagOf1(el))]
 RECURSIVE Replace1(_, _, _)
-SeqRepl(x, fld, u, r) ==       \* replace inside one element of the sequence field c
+SeqRepl(x, u, r) ==       \* replace inside one element of the sequence field c
     UNION {{[x EXCEPT !.c = [x.c EXCEPT ![i] = y]] : y \in Replace1(x.c[i], u, r)}
              : i \in 1..Len(x.c)}
 Replace1(x, u, r) ==
@@ -112,11 +112,11 @@ Replace1(x, u, r) ==
       [] IsBagNF(x) ->
             UNION {{PutBag(x.t, BagRemove1(x.bag, el), y) : y \in Replace1(el, u, r)}
                      : el \in DOMAIN x.bag}
-      [] x.t \in {"Tup", "List", "Slice"} -> SeqRepl(x, "c", u, r)
+      [] x.t \in {"Tup", "List", "Slice"} -> SeqRepl(x, u, r)
       [] x.t = "Sub" ->
-            {[x EXCEPT !.a = y] : y \in Replace1(x.a, u, r)} \cup SeqRepl(x, "c", u, r)
+            {[x EXCEPT !.a = y] : y \in Replace1(x.a, u, r)} \cup SeqRepl(x, u, r)
       [] x.t = "Call" ->
-            {[x EXCEPT !.f = y] : y \in Replace1(x.f, u, r)} \cup SeqRepl(x, "c", u, r)
+            {[x EXCEPT !.f = y] : y \in Replace1(x.f, u, r)} \cup SeqRepl(x, u, r)
       [] x.t \in (BinKinds \ {"Sub"}) \cup {"Cmp"} ->
             {[x EXCEPT !.a = y] : y \in Replace1(x.a, u, r)}
             \cup {[x EXCEPT !.b = y] : y \in Replace1(x.b, u, r)}
@@ -145,9 +145,11 @@ ReplaceVerdict(s, lhs, calls, result, mode) ==
          IF run.stuck # 0 THEN "rep_step"
          ELSE IF NFM(result) \in run.cur THEN "OK" ELSE "rep_result"
 
-\* attribution feature: in every term the model allows, some replacement r(k) is a direct
-\* element of a call's argument list or of a subscript's index list
-InArgList(x, r) == \E sb \in SubNFs(x) : sb.t \in {"Call", "Sub"} /\ r \in SeqToSet(sb.c)
+\* attribution feature: in every term the model allows, some replacement r(k) lies inside
+\* (at any depth) an element of a call's argument list or of a subscript's index list, i.e.
+\* putting it there means rebuilding that list
+InArgList(x, r) == \E sb \in SubNFs(x) :
+                      sb.t \in {"Call", "Sub"} /\ \E i \in 1..Len(sb.c) : r \in SubNFs(sb.c[i])
 ReplacedInArgList(s, lhs, calls, mode) ==
     /\ Len(calls) \in 1..MaxCalls
     /\ LET run == RwRun(s, lhs, calls, mode) IN
